@@ -573,9 +573,42 @@ def search_many_streams(ctx, P):
     return None
 
 
+def search_reserved_bit(ctx, P):
+    """a transfer on an identifier that differs from a known fast-packet PGN only in the reserved bit (bit 25: PGN 0x3EF00 /
+    0x3FF00.. instead of 0x1EF00 / 0x1FF00) is another, unknown PGN: its frames, interleaved with a transfer of the known
+    PGN from the same source to the same destination under the same counter, neither complete nor disturb it"""
+    rng = ctx.rng
+    pad = lambda k: [0xFF] * k  # noqa: E731
+    for _ in range(ctx.n(12, 120)):
+        base = rng.choice([(126720, rng.randrange(252), rng.choice([255, 17, 0])), (130816, rng.randrange(252), 255)])
+        twin = (base[0] | 0x20000, base[1], base[2])
+        sq = rng.randrange(8)
+        a = Episode(base, sq, fallback_payload(rng, base[0], rng.choice([13, 20, 27]), P), pad)
+        b = Episode(twin, sq, fallback_payload(rng, base[0], rng.choice([13, 20, 27]), P), pad)
+        ea = _episode_events(rng, a, list(range(1, len(a.frames))))
+        eb = [(twin, f, ("stale", b)) for f in b.frames]
+        x = [0] * len(ea) + [1] * len(eb)
+        rng.shuffle(x)
+        ia = ib = 0
+        ev = []
+        for t in x:
+            if t == 0:
+                ev.append(ea[ia]); ia += 1
+            else:
+                ev.append(eb[ib]); ib += 1
+        w = check_history(ev, "a transfer on the identifier with the reserved bit set, interleaved")
+        if w:
+            w["key"] = "reserved-bit:" + w["key"]
+            return w
+    return None
+
+
 def search(ctx):
     import nmea2000.pgns as P
     out = []
+    w = search_reserved_bit(ctx, P)
+    if w:
+        out.append(w)
     w = search_many_streams(ctx, P)
     if w:
         out.append(w)
